@@ -3,8 +3,8 @@ import GrpcModel.Driver.Backoff
 import GrpcModel.Model.Backoff
 /-! component `s_backoff` (C20, pacing): a real ClientConn with a scripted dialer under virtual time.
 
-  `new <base> <mult bits> <jitter bits> <max> <minCT>` | `newdef` | `mode fail|ok|hang` | `connect`
-  | `sleep <ns>` | `resetbo` | `kill`
+  `new|newlb <base> <mult bits> <jitter bits> <max> <minCT>` | `newdef` | `mode fail|ok|hang` | `connect`
+  | `sleep <ns>` | `resetbo` | `kill` | `addrs <k>` (newlb only: SubConn.UpdateAddresses([address k]))
 
 Every answer is the list of events that became visible (`t:bo:i:d t:dial t:fail t:ok`) and the channel
 state. The durations `d` the real strategy returned are read from the implementation's answer
@@ -58,9 +58,12 @@ def defaultCfg : Config :=
 def modelStep (st : St) (fs : List String) (impl : String) : St × String :=
   let oracle := oracleOf impl
   let s := st.sim
-  if !st.created && fs.head? ≠ some "new" && fs.head? ≠ some "newdef" then (st, "nochan") else
+  if !st.created && fs.head? ≠ some "new" && fs.head? ≠ some "newlb" && fs.head? ≠ some "newdef" then (st, "nochan") else
   match fs with
-  | ["new", b, m, j, x, ct] =>
+  | [nw, b, m, j, x, ct] =>
+    -- `new`: pick_first; `newlb`: the harness's one-subchannel policy (same observable behaviour, and it
+    -- can call SubConn.UpdateAddresses)
+    if nw ≠ "new" ∧ nw ≠ "newlb" then (st, "bad-op") else
     match Backoff.parseCfg b m j x, ct.toInt? with
     | some c, some minCT => ({ st with sim := { minCT := minCT }, cfg := some c, created := true }, "st=IDLE")
     | _, _ => (st, "bad-op")
@@ -93,6 +96,12 @@ def modelStep (st : St) (fs : List String) (impl : String) : St × String :=
         ({ st with sim := s' }, render evs s')
       | [] => ({ st with sim := s1 }, render [.missing] s1)
     else ({ st with sim := s1 }, render [] s1)
+  | ["addrs", k] =>
+    match k.toNat? with
+    | some k =>
+      let (s', evs) := s.updateAddrs k oracle.head?
+      ({ st with sim := s' }, render evs s')
+    | none => (st, "bad-op")
   | ["kill"] =>
     let s' := { s with ac := (acStep s.ac (.connLost s.now)).1 }
     ({ st with sim := s' }, render [] s')
@@ -111,7 +120,7 @@ def step : Step St := fun st fs impl =>
     else if i = 0 then (if d = cfg.base then "ok" else s!"VIOL Backoff(0) = {d} is not the base delay")
     else judge cfg i d) "ok"
   let verdict :=
-    if fs.head? = some "new" ∨ fs.head? = some "newdef" ∨ !st1.created then "-"
+    if fs.head? = some "new" ∨ fs.head? = some "newlb" ∨ fs.head? = some "newdef" ∨ !st1.created then "-"
     else if bandV ≠ "ok" then bandV
     else if !paced log then "VIOL a connection attempt started before the backoff of the preceding failure had elapsed (no reset in between)"
     else if !idxOk 0 log then "VIOL the backoff index is not the number of failures since the last success/reset"
